@@ -15,6 +15,8 @@ import LzmaVerif.Model.Mem
 import LzmaVerif.Model.Options
 import LzmaVerif.Model.Parse
 import LzmaVerif.Model.Bcj2
+import LzmaVerif.Model.LzDecoder
+import LzmaVerif.Model.EncWindow
 /-! Request handlers: each maps a parsed request to the canonical answer line. -/
 namespace Driver
 open LzmaVerif
@@ -269,8 +271,87 @@ def handleBcj2 (cmd : String) (a : Args) : String :=
      | _, _, _, _, _ => "bad-op")
   | _ => "bad-op"
 
+/-- the lengths of the `write` calls: `parts` repeated cyclically (the last call cut) until `total` bytes
+    are written; if `parts` has no positive entry everything goes into one call -/
+def expandParts (parts : List Nat) (total : Nat) : List Nat :=
+  if parts.all (· == 0) then [total] else
+  let rec go (fuel : Nat) (cur : List Nat) (left : Nat) (acc : List Nat) : List Nat :=
+    match fuel with
+    | 0 => acc.reverse
+    | fuel + 1 =>
+      if left = 0 then acc.reverse else
+      match cur with
+      | [] => go fuel parts left acc
+      | p :: ps => go fuel ps (left - min p left) (min p left :: acc)
+  go (2 * total + 2 * parts.length + 2) parts total []
+
+open EncWindow in
+/-- `encwin.trace dict=<n> mode=<fast|normal> lzma2=<0|1> parts=<n,n,…> total=<n> [nice=<n>] [mf=<hc4|bt4>] [policy=<k>]`
+    → `ok <number of move_pos steps> <fnv32 of the sequence of (position, look-ahead length, look-back length)>`.
+
+    Runs the window model (`Model/EncWindow.lean`, positions only: the data are the bytes 0..255 cyclic and
+    are not looked at) for the parameters `LZMAEncoder::new` would build: the input of `total` bytes is written
+    with `write` calls of the lengths `parts`, repeated cyclically (`parts=1` = byte by byte, `parts=-` = one
+    call; zero lengths are empty `write` calls), then `finish`.  Defaults: `nice=64`, `mf=hc4` for fast and
+    `bt4` for normal, `policy=0`.  `policy` selects the deterministic stand-in for the search
+    (`policyOracle`): 0 = one `move_pos` and one literal per symbol – then step `i` is position `i` with
+    look-ahead `min(total - i, EXTRA_SIZE_AFTER + MATCH_LEN_MAX)` and look-back `min(i, dict)`; `k > 0` = symbols
+    of several bytes with read-ahead and (LZMA2) chunk ends.  By `view_independence` the answer does not depend
+    on `parts`; a hook in the real encoder that logs, at every `LZEncoderData::move_pos`, the absolute position,
+    `min(get_avail(), keep_size_after - (pos - symbol start))` and `min(pos, dict_size)` must reproduce the
+    hash for the decisions the real search took. -/
+def handleEncWin (a : Args) : String :=
+  match a.nat? "dict", a.get? "mode", a.nat? "lzma2", a.nats? "parts", a.nat? "total" with
+  | some dict, some modeS, some l2, some parts, some total =>
+    let mode? : Option Mode := match modeS with | "fast" => some .fast | "normal" => some .normal | _ => none
+    match mode? with
+    | none => "bad-op"
+    | some mode =>
+      let mf : MF := match a.get? "mf" with
+        | some "hc4" => .hc4
+        | some "bt4" => .bt4
+        | _ => (match mode with | .fast => .hc4 | .normal => .bt4)
+      let nice := (a.nat? "nice").getD 64
+      let policy := (a.nat? "policy").getD 0
+      let P := mkParams dict nice mode mf (l2 != 0)
+      let st := run noBuf P (policyOracle policy) (cyclicParts 0 (expandParts parts total))
+      if st.stuck then "err stuck" else
+      let tr := st.trace.reverse
+      s!"ok {tr.length} {traceHash dict tr}"
+  | _, _, _, _, _ => "bad-op"
+
+/-- `lzdec.run dict=<n> preset=<hex|-|empty> ops=<op:a:b,op:a:b,…|->`: the model of the Rust hook
+    `verif_hooks::lz_decoder_script(dict, preset, script)`; `preset=-` is `None`, `preset=empty` is `Some(&[])`;
+    every op is a triple of decimal numbers `op:a:b` (0 set_limit a, 1 put_byte a, 2 repeat a b, 3 repeat_pending,
+    4 flush, other reset).  Answer: `ok <len> <fnv>` or `err <message>` (`dist overflow`, or `panic: …` where the
+    Rust code would panic) -/
+def handleLzDec (a : Args) : String :=
+  let preset : Option (Option (List Nat)) :=
+    match a.get? "preset" with
+    | some "-" => some none
+    | some "empty" => some (some [])
+    | some h => (unhex h).map some
+    | none => none
+  let ops : Option (List (Nat × Nat × Nat)) :=
+    (a.get? "ops").bind fun s =>
+      if s == "-" then some [] else
+      (s.splitOn ",").mapM fun t =>
+        match (t.splitOn ":").mapM String.toNat? with
+        | some [op, x, y] => some (op, x, y)
+        | _ => none
+  match a.nat? "dict", preset, ops with
+  | some dict, some preset, some ops =>
+    (match LzDecoder.runScript dict preset ops with
+     | .ok out => s!"ok {out.length} {fnv out}"
+     | .error e =>
+       -- `class=1`: only say whether the Rust code would panic (message texts of panics are not compared)
+       if a.nat? "class" == some 1 && e.startsWith "panic" then "panic" else s!"err {e}")
+  | _, _, _ => "bad-op"
+
 def handle (cmd : String) (a : Args) : String :=
   match cmd with
+  | "lzdec.run" => handleLzDec a
+  | "encwin.trace" => handleEncWin a
   | "bcj2.enc" | "bcj2.dec" => handleBcj2 cmd a
   | "split.xz" | "split.lzip" | "split.mt" => handleSplit cmd a
   | "lzma.expected" => handleExpected a
